@@ -7,6 +7,10 @@ Op sequences on LOADED IMD / TD0 images (used by the driver families `c08`, `c09
 * `<fam> imdseq <hex of the IMD file> <ops>`
 * `<fam> td0seq <hex of the TD0 file without advanced compression (signature TD)> <ops>`
 
+* `<fam> imdseqx <hex file> <valid:0|1> <ops>`  — a file of another program: `valid` = its comment bytes are UTF-8
+* `<fam> td0seqx <hex file> <hex of from_utf8_lossy(comment bytes)> <fix:0|1> <ops>` — the lossy conversion of the comment is
+  the harness' (std), not the model's; `fix` = the tree limits the notes to 65535 bytes (probed by the harness)
+
 `<ops>` = `;`-separated (or `-` for none):
 * `rs:<cyl>:<head>:<sector>`            → `ok:<hex>` | `err` | `panic`
 * `ws:<cyl>:<head>:<sector>:<hex>`      → `ok` | `err` | `panic`
@@ -121,12 +125,12 @@ def ifImd : Iface C08Imd.Obj where
   comment := fun o v => if 0x1A ∈ v then none else some { o with comment := v }
   getMeta := fun o => some o.comment
 
-def ifTd0 : Iface C08Td0.Obj where
+def ifTd0 (fix : Bool) : Iface C08Td0.Obj where
   rs := C08Td0.Obj.readSector
   ws := C08Td0.Obj.writeSector
   save := fun o => some (C08Td0.Obj.save o)
   reload := fun o => some (C08Td0.load (C08Td0.Obj.save o).1)
-  notes := fun o st v => C08Td0.Obj.putNotes st o v
+  notes := fun o st v => C08Td0.Obj.putNotesL fix st o v
   comment := fun _ _ => none
   getMeta := fun o => o.comment.map (·.text)
 
@@ -141,12 +145,26 @@ def handle (toks : List String) : Option String :=
     | none => some "load:panic"
     | some none => some "load:err"
     | some (some o) => some (runOps ifImd o ops ["load:ok"])
+  | ["imdseqx", file, valid, ops] => do
+    let bytes ← ofHexFast file
+    let ops ← parseOps ops
+    match C08Imd.loadV (valid == "1") bytes with
+    | none => some "load:panic"
+    | some none => some "load:err"
+    | some (some o) => some (runOps ifImd o ops ["load:ok"])
+  | ["td0seqx", file, lossy, fix, ops] => do
+    let bytes ← ofHexFast file
+    let lz ← ofHexFast lossy
+    let ops ← parseOps ops
+    match C08Td0.loadD (fun _ => lz) (fix == "1") bytes with
+    | none => some "load:err"
+    | some o => some (runOps (ifTd0 (fix == "1")) o ops ["load:ok"])
   | ["td0seq", file, ops] => do
     let bytes ← ofHexFast file
     let ops ← parseOps ops
     match C08Td0.load bytes with
     | none => some "load:err"
-    | some o => some (runOps ifTd0 o ops ["load:ok"])
+    | some o => some (runOps (ifTd0 false) o ops ["load:ok"])
   | _ => none
 
 end A2Verif.Drv.C08Img
